@@ -238,3 +238,109 @@ Proof.
   split; [congruence|]. split; [congruence|]. split; [congruence|].
   split; [intros j Hj; rewrite Oth2, Oth by exact Hj; reflexivity|exact K2].
 Qed.
+
+(* ---------- commit over every backend ---------- *)
+(* the commit commands of one backend leave alone every key they are not about *)
+Lemma run_under_frame i fs k : (forall f, In f fs -> forall b, f b k = b k) -> forall w, (i < length (bks w))%nat ->
+  bB (get_b (fst (run_under w i fs)) i) k = bB (get_b w i) k.
+Proof.
+  intro Hf. induction fs as [|f fs IH]; intros w Hi; cbn [run_under fst]; [reflexivity|].
+  pose proof (under_spec w i f Hi) as U. destruct (under w i f) as [w1 ok1].
+  destruct U as (_ & _ & _ & L1 & _ & _ & B1 & _). destruct ok1; cbn [fst].
+  - rewrite IH; [|intros g Hg; apply Hf; right; exact Hg|lia]. rewrite B1. destruct (faulty w); [reflexivity|]. apply Hf. left. reflexivity.
+  - rewrite B1. destruct (faulty w); [reflexivity|]. apply Hf. left. reflexivity.
+Qed.
+
+Lemma fold_upd_none_other (d : list key) k : ~ In k d -> forall b : tmap, fold_left (fun m k0 => upd m k0 None) d b k = b k.
+Proof.
+  induction d as [|k0 d IH]; intros Hn b; cbn [fold_left]; [reflexivity|]. rewrite IH by (intro H; apply Hn; right; exact H).
+  unfold upd. destruct (String.eqb_spec k k0); [exfalso; apply Hn; left; symmetry; assumption|reflexivity].
+Qed.
+Lemma s_write_other (m : tmap) now k0 v ttl k : k <> k0 -> s_write m now k0 v ttl k = m k.
+Proof. intro H. unfold s_write, upd. destruct (String.eqb_spec k k0); [contradiction|reflexivity]. Qed.
+
+Lemma commit_cmds_frame U x now k : ~ In k U -> ~ In k (bD x) -> forall f, In f (commit_cmds U x now) -> forall b, f b k = b k.
+Proof.
+  intros HU HD f Hin b. unfold commit_cmds in Hin. apply in_app_or in Hin as [H|H].
+  - destruct (bD x) as [|d0 dl] eqn:E; [destruct H|]. destruct H as [<-|[]]. apply fold_upd_none_other. exact HD.
+  - apply in_app_or in H as [H|H].
+    + destruct (existsb _ U); [|destruct H]. destruct H as [<-|[]].
+      assert (G : forall (l : list key) (b0 : tmap), ~ In k l ->
+                 fold_left (fun m k0 => match bL x k0 with Some (None, v) => s_write m now k0 v 0 | _ => m end) l b0 k = b0 k).
+      { induction l as [|k0 l IH]; intros b0 Hn; cbn [fold_left]; [reflexivity|]. rewrite IH by (intro H; apply Hn; right; exact H).
+        destruct (bL x k0) as [[[d|] v]|]; try reflexivity. apply s_write_other. intro E. apply Hn. left. symmetry. exact E. }
+      apply G. exact HU.
+    + apply in_flat_map in H as (k0 & Hk0 & H). destruct (bL x k0) as [[[d|] v]|]; try destruct H.
+      destruct (0 <? d - now); [|destruct H]. destruct H as [<-|[]]. apply s_write_other. intro E. apply HU. rewrite E. exact Hk0.
+Qed.
+
+(* one backend's commit, whatever fails: besides the bookkeeping of backend_commit_releases, every lock key it held is
+   gone from its store unless a command of this commit failed - provided lock keys are not data keys *)
+Theorem backend_commit_spec U now w i : (i < length (bks w))%nat -> NoDup (bLocks (get_b w i)) -> NoDup (nth i (lorder w) []) ->
+  (forall lk, In lk (bLocks (get_b w i)) -> ~ In lk U /\ ~ In lk (bD (get_b w i))) ->
+  let '(w', ok) := backend_commit U now w i in
+  faults w' = faults w /\ length (bks w') = length (bks w) /\ lorder w' = lorder w /\ (pos w <= pos w')%nat /\
+  (forall j, j <> i -> get_b w' j = get_b w j) /\ bLocks (get_b w' i) = [] /\
+  (forall lk, In lk (bLocks (get_b w i)) ->
+     bB (get_b w' i) lk = None \/ exists p, (pos w <= p < pos w')%nat /\ memn p (faults w) = true).
+Proof.
+  intros Hi Hnd Hno Hlk. unfold backend_commit.
+  pose proof (run_under_spec i (commit_cmds U (get_b w i) now) w Hi) as R.
+  destruct (run_under w i (commit_cmds U (get_b w i) now)) as [w1 ok] eqn:Er. destruct R as (F1 & O1 & L1 & P1 & Oth1 & K1).
+  set (w1' := if ok then clear_overlay w1 i else w1).
+  assert (A : faults w1' = faults w /\ lorder w1' = lorder w /\ length (bks w1') = length (bks w) /\ pos w1' = pos w1 /\
+              (forall j, j <> i -> get_b w1' j = get_b w j) /\ bLocks (get_b w1' i) = bLocks (get_b w i) /\ bB (get_b w1' i) = bB (get_b w1 i)).
+  { unfold w1'. destruct ok; [|repeat split; auto]. unfold clear_overlay. rewrite len_put. cbn [faults lorder put_b pos].
+    split; [exact F1|]. split; [exact O1|]. split; [exact L1|]. split; [reflexivity|].
+    split; [intros j Hj; rewrite get_put_other by lia; apply Oth1; exact Hj|].
+    rewrite get_put_same by lia. cbn [bLocks bB]. split; [exact K1|reflexivity]. }
+  destruct A as (F & O & L & Pp & Oth & K & Bb).
+  pose proof (unlock_updates_spec w1' i ltac:(lia) ltac:(rewrite K; exact Hnd) ltac:(rewrite O; exact Hno)) as Uu.
+  destruct (unlock_updates w1' i) as [w2 ok2]. destruct Uu as (F2 & L2 & O2 & P2 & Oth2 & K2 & _ & _ & Rel & _).
+  split; [congruence|]. split; [congruence|]. split; [congruence|]. split; [lia|].
+  split; [intros j Hj; rewrite Oth2, Oth by exact Hj; reflexivity|]. split; [exact K2|].
+  intros lk Hin. rewrite <- K in Hin. destruct (Rel lk Hin) as [E|(p & Hp & Hm)]; [left; exact E|right].
+  exists p. split; [lia|rewrite <- F; exact Hm].
+Qed.
+
+(* Transaction.commit over several backends, any fault set: every backend ends with an empty lock set and every lock key
+   it held is gone from its store unless some command of the exit phase failed; backends not involved are untouched *)
+Theorem commit_from_spec U now is_ : NoDup is_ -> forall w, wfw w is_ ->
+  (forall i, In i is_ -> forall lk, In lk (bLocks (get_b w i)) -> ~ In lk U /\ ~ In lk (bD (get_b w i))) ->
+  let '(w', ok) := commit_from U now w is_ in
+  faults w' = faults w /\ length (bks w') = length (bks w) /\ lorder w' = lorder w /\ (pos w <= pos w')%nat /\
+  (forall j, ~ In j is_ -> get_b w' j = get_b w j) /\
+  (forall i, In i is_ ->
+     bLocks (get_b w' i) = [] /\
+     (forall lk, In lk (bLocks (get_b w i)) ->
+        bB (get_b w' i) lk = None \/ exists p, (pos w <= p < pos w')%nat /\ memn p (faults w) = true)).
+Proof.
+  induction is_ as [|i is_ IH]; intros Hnd w Hw Hlk; cbn [commit_from].
+  - repeat split; auto; try lia; try (intros i0 []); try (match goal with H : In _ [] |- _ => destruct H end).
+  - inversion Hnd as [|? ? Hni Hnd']; subst. inversion Hw as [|? ? (Hi & Hn1 & Hn2) Hw']; subst.
+    pose proof (backend_commit_spec U now w i Hi Hn1 Hn2 (Hlk i (or_introl eq_refl))) as B.
+    destruct (backend_commit U now w i) as [w1 ok1]. destruct B as (F1 & L1 & O1 & P1 & Oth1 & K1 & Rel1).
+    assert (Hw1 : wfw w1 is_).
+    { unfold wfw in *. rewrite Forall_forall in *. intros j Hj. destruct (Hw' j Hj) as (A & B & C).
+      assert (j <> i) by (intro E; subst; contradiction). rewrite L1, O1, (Oth1 j H). auto. }
+    destruct ok1.
+    + assert (Hlk1 : forall j, In j is_ -> forall lk, In lk (bLocks (get_b w1 j)) -> ~ In lk U /\ ~ In lk (bD (get_b w1 j))).
+      { intros j Hj lk Hin. assert (j <> i) by (intro E; subst; contradiction). rewrite (Oth1 j H) in *. apply (Hlk j (or_intror Hj) lk Hin). }
+      specialize (IH Hnd' w1 Hw1 Hlk1). destruct (commit_from U now w1 is_) as [w2 ok2].
+      destruct IH as (F2 & L2 & O2 & P2 & Oth2 & Rel2).
+      split; [congruence|]. split; [congruence|]. split; [congruence|]. split; [lia|].
+      split; [intros j Hj; rewrite Oth2 by (intro H; apply Hj; right; exact H); apply Oth1; intro E; apply Hj; left; symmetry; exact E|].
+      intros j [<-|Hj].
+      * rewrite (Oth2 i Hni). split; [exact K1|]. intros lk Hin. destruct (Rel1 lk Hin) as [E|(p & Hp & Hm)]; [left; exact E|right; exists p; split; [lia|exact Hm]].
+      * destruct (Rel2 j Hj) as [Kj Rj]. split; [exact Kj|]. assert (j <> i) by (intro E; subst; contradiction).
+        intros lk Hin. rewrite <- (Oth1 j H) in Hin. destruct (Rj lk Hin) as [E|(p & Hp & Hm)]; [left; exact E|right; exists p; split; [lia|rewrite <- F1; exact Hm]].
+    + (* this backend's commit failed: the remaining ones are rolled back *)
+      pose proof (rollback_from_spec is_ Hnd' w1 Hw1) as Rb. destruct (rollback_from w1 is_) as [w2 ok2]. cbn [fst].
+      destruct Rb as (F2 & L2 & O2 & P2 & Oth2 & Rel2).
+      split; [congruence|]. split; [congruence|]. split; [congruence|]. split; [lia|].
+      split; [intros j Hj; rewrite Oth2 by (intro H; apply Hj; right; exact H); apply Oth1; intro E; apply Hj; left; symmetry; exact E|].
+      intros j [<-|Hj].
+      * rewrite (Oth2 i Hni). split; [exact K1|]. intros lk Hin. destruct (Rel1 lk Hin) as [E|(p & Hp & Hm)]; [left; exact E|right; exists p; split; [lia|exact Hm]].
+      * destruct (Rel2 j Hj) as (Kj & Rj & _). split; [exact Kj|]. assert (j <> i) by (intro E; subst; contradiction).
+        intros lk Hin. rewrite <- (Oth1 j H) in Hin. destruct (Rj lk Hin) as [E|(p & Hp & Hm)]; [left; exact E|right; exists p; split; [lia|rewrite <- F1; exact Hm]].
+Qed.
